@@ -91,7 +91,7 @@ def _status_test_covers_all_failures(ctx: Ctx, f: Func, node: ast.If) -> bool:
     killed by a signal; positive: error exit; None: still running)."""
     from ..pattern import norm as _norm
 
-    t = _norm(ctx.X.at(f, node.test))
+    t = _norm(ctx.X.value_at(f, node.test))
     raise_in_body = any(isinstance(n, ast.Raise) for s in node.body for n in ast.walk(s))
     raise_in_else = any(isinstance(n, ast.Raise) for s in node.orelse for n in ast.walk(s))
 
